@@ -4,10 +4,10 @@ import CoapVerif.Util
 /- Line-protocol driver for C19.
    `tlsgate <who>:<event>/<oracle answers> …`  replays the entry points and oracle answers OBSERVED by harness/dtls.c
         through M (Coap.TlsGate) and prints the harness' canonical segments.
-   `dtls <configuration words>`               S: may this credential configuration complete a handshake
+   `dtls|tls <configuration words>`           S: may this credential configuration complete a handshake
         (Coap.TlsCreds.accepts) — the spec-level expectation the observed verdict is judged against. -/
 -- DRIVER-OPS: tlsgate => Coap.Driver.TlsGate.replayStep
--- DRIVER-OPS: dtls => Coap.Driver.TlsGate.specStep
+-- DRIVER-OPS: dtls tls => Coap.Driver.TlsGate.specStep
 namespace Coap.Driver.TlsGate
 open Coap Coap.TlsGate
 
@@ -29,6 +29,12 @@ def showOut : Out → Option String
   | .ev .closed => some "ev:closed"
   | .ev .connected => some "ev:connected"
   | .ev .error => some "ev:error"
+  | .evTcp .connected => some "ev:tcp-connected"
+  | .evTcp .closed => some "ev:tcp-closed"
+  | .evTcp .failed => some "ev:tcp-failed"
+  | .evTcp .sessConnected => some "ev:sess-connected"
+  | .evTcp .sessClosed => some "ev:sess-closed"
+  | .evTcp .sessFailed => some "ev:sess-failed"
   | .evNew => some "ev:new"
   | .evDel => some "ev:del"
   | .evRtx => some "ev:rtx"
@@ -46,7 +52,8 @@ def showState : Option Sess → String
   | none => "gone"
   | some s =>
     if s.freed then "gone"
-    else s!"st={s.state.toNat},tls={b01 s.tls},dq={s.delayq.length},ca={s.conActive},if={s.inflight.length}"
+    else s!"st={s.state.toNat},tls={b01 s.tls},dq={s.delayq.length},ca={s.conActive},if={s.inflight.length}" ++
+      (if s.proto = .tls then s!",df={b01 s.doingFirst}" else "")
 
 def parseKind : String → Option Nat
   | "C" => some 0 | "N" => some 1 | "A" => some 2 | "R" => some 3 | _ => none
@@ -79,6 +86,10 @@ def parseOrc (s : String) : Option Orc :=
   | ["snd", "again"] => some (.snd .again)
   | ["snd", "fatalrx"] => some (.snd .fatalrx)
   | ["snd", "err"] => some (.snd .err)
+  | ["snd", "push"] => some (.snd .push)
+  | ["snd", "part"] => some (.snd .part)
+  | ["rec", "again"] => some (.recv .again)
+  | ["rec", "pull"] => some (.recv .pull)
   | ["rec", "zero"] => some (.recv .zero)
   | ["rec", "fatalrx"] => some (.recv .fatalrx)
   | ["rec", "warn"] => some (.recv .warn)
@@ -121,6 +132,36 @@ def runEvent (tb : Tab) (who : String) (ev : List String) (orc : List Orc) : Opt
       | none => none
     | [] => none
   | ["dg"] => viaStep .dgram
+  -- TLS over TCP (harness/tls.c)
+  | ["tnew", "now"] => let c := newClientTlsCtx true orc; some (some c.s, c.out, c.orc.length, [])
+  | ["tnew", "prog"] => let c := newClientTlsCtx false orc; some (some c.s, c.out, c.orc.length, [])
+  | ["tnew", "fail"] => some (none, [], orc.length, [])
+  | ["tsend", km, tok] =>
+    match (String.ofList (km.toList.drop 1)).toNat? with
+    | some mid => viaStep (.appSendStrm false 1 mid tok)
+    | none => none
+  | ["tsendw", km, tok] =>
+    match (String.ofList (km.toList.drop 1)).toNat? with
+    | some mid => viaStep (.appSendStrm true 1 mid tok)
+    | none => none
+  | ["acc"] =>
+    match live with
+    | none => let c := acceptCtx orc; some (some c.s, c.out, c.orc.length, [])
+    | some _ => some (live, [], orc.length, ["!second-accept"])
+  | ["tick"] => some (live, [], orc.length, [])
+  | ["io", flags] =>
+    -- coap_io_do_epoll_lkd for one event: connect, read, write — in this order, on the same session
+    let evOf : Char → Option Ev
+      | 'c' => some (.tcpConnect true) | 'r' => some .strmRead | 'w' => some .strmWrite | _ => none
+    match live with
+    | none => some (none, [], orc.length, [])
+    | some s0 =>
+      let r := flags.toList.foldl (fun (acc : Option (Sess × List Out × List Orc)) ch =>
+        match acc, evOf ch with
+        | some (s, outs, o), some e => let c := s.stepCtx e o; some (c.s, outs ++ c.out, c.orc)
+        | some a, none => if ch = 'n' then some a else none
+        | none, _ => none) (some (s0, [], orc))
+      r.map fun (s, outs, o) => (some s, outs, o.length, [])
   | ["tmo"] => viaStep .tlsTimeout
   | ["rtx", mid] => mid.toNat?.bind fun m => viaStep (.retransmit m)
   | ["rel"] => viaStep .release
@@ -199,6 +240,9 @@ def parseCfg : List String → Cfg → Option Cfg
       | "inj" => parseCfg rest cfg
       | "rel" => parseCfg rest cfg
       | "idle" => parseCfg rest cfg
+      | "conn" => parseCfg rest cfg
+      | "acc" => parseCfg rest cfg
+      | "wait" => parseCfg rest cfg
       | _ => none
     | _ => none
 
